@@ -46,6 +46,8 @@ def build_corpus(tier, rng):
             en_v, dis_v = Variant(a, "unit"), Variant(b, "unit", [], [DISABLED])
             vs = [Variant("First", "unit")] + ([en_v, dis_v] if order == 0 else [dis_v, en_v]) + [Variant("Last", "unit", [], [ser("l")])]
             items.append(("snake-twin", Item("E", vs)))
+    # non-ASCII identifiers (with digits after the non-ASCII letter): the slot names are derived from them
+    items.append(("non-ascii", Item("E", [Variant("Größe42", "unit"), Variant("É1", "unit", [], [DISABLED]), Variant("变7x", "unit"), Variant("Plain", "unit"), Variant("Öl2", "unit")])))
     # a field-less enum may still have (defaulted) const parameters: the table is generic over them
     for nc in (1, 2):
         it = Item("E", [Variant("Left", "unit"), Variant("Spare", "unit", [], [DISABLED]), Variant("Middle", "unit"), Variant("Right", "unit", [], [ser("r")])], cparams=nc)
